@@ -37,6 +37,21 @@ CLAIMED["C14"] = dict(
     design="DESIGN.md section 3, C14",
 )
 
+CLAIMED["C04"] = dict(
+    category="other",
+    technique="static whole-program classification: reachable diverging-site census (MIR), panicking arms over input-shaped enums (typed HIR), un-cut recursion through table lookups (call-graph SCCs + backward data-dependence + dominating memo marks), loop-variant analysis on natural loops",
+    text=("Decides, for every path of the compiler and every input, four necessary conditions of totality: (1) the multiset of "
+          "diverging sites reachable from the entry points equals a reviewed census (may shrink, not grow); (2) no match arm over "
+          "an swc AST enum or a binding-table enum is a panic; (3) every recursive call that passes a value obtained from a "
+          "user-keyed table lookup lies only on cycles that pass a visited/memo mark; (4) every condition-driven loop writes a "
+          "loop-carried dependency of its exit condition on every back-edge path. The rules found 3 panics, 1 hang (all repaired by "
+          "fix: commits) and 41 reachable sites that abort the process on witness inputs (known findings, each reproduced)."),
+    note=("Trusted: rustc MIR/HIR, the call-graph over-approximation, the reviewed census and two exception tables. Not decided: "
+          "promptness, diagnostics' line/column ranges lying inside the file, swc's own parser; dependency crates are not analysed. "
+          "The census rule is deliberately conservative: a new panic/unwrap/index site fails until reviewed."),
+    design="DESIGN.md section 3, C04",
+)
+
 NOT_APPLICABLE_REASON = {}
 
 
